@@ -19,7 +19,7 @@ RULE = ("each run: generated well-formed input, then a constrained leaf (type al
 REAL = common.REAL_DECODER
 ASSUMPTIONS = ["allowed sets are the pinned snapshot's intervals (audited once against the pinned tree by membership probing)",
                "membership of error.constraint.valid_values is probed at interval end points +-1 and seeded values, never iterated"]
-TIERS = {"quick": {"runs": 30000, "budget": 150}, "thorough": {"runs": 900000, "budget": 780}}
+TIERS = {"quick": {"runs": 42000, "budget": 150}, "thorough": {"runs": 900000, "budget": 780}}
 
 
 def enumerate_all(tier, rng):
